@@ -187,7 +187,7 @@ func Generate(r *rng.R, cfg GenCfg) *Schema {
 		for _, q := range s.Pkgs {
 			if r.Intn(2) == 0 {
 				im := Import{ID: q.ID}
-				if r.Intn(2) == 0 {
+				if r.Intn(2) == 0 || (cfg.ValueBias && r.Intn(2) == 0) {
 					im.Alias = fmt.Sprintf("al%s", q.Name)
 				}
 				imports = append(imports, im)
@@ -238,6 +238,37 @@ func Generate(r *rng.R, cfg GenCfg) *Schema {
 			}
 			defs = append(defs, d)
 			sc.local = append(sc.local, d)
+		}
+		// generated-code checks: the value types (enums, structs) of every imported package appear as
+		// list elements of a message and as fields of a local struct (each position uses a different
+		// generated helper: New/Open, Decode, Write, typed list constructors)
+		if cfg.ValueBias {
+			for _, im := range imports {
+				var vals []*Def
+				for _, d := range impDefs[im.Name()] {
+					if d.Kind == DEnum || d.Kind == DStruct {
+						vals = append(vals, d)
+					}
+				}
+				if len(vals) == 0 {
+					continue
+				}
+				ref := func(d *Def) *Type { return &Type{Kind: TRef, Name: d.Name, Import: im.Name(), Ref: d} }
+				m := &Def{Kind: DMessage, Name: g.id("Imp"), Pkg: p}
+				st := &Def{Kind: DStruct, Name: g.id("St"), Pkg: p}
+				tags := g.tags(2 * len(vals))
+				for i, d := range vals {
+					if i >= 3 {
+						break
+					}
+					m.Fields = append(m.Fields, Field{Name: fmt.Sprintf("one_%d", i), Type: ref(d), Tag: tags[2*i]})
+					m.Fields = append(m.Fields, Field{Name: fmt.Sprintf("many_%d", i), Type: &Type{Kind: TList, Name: "[]", Elem: ref(d)}, Tag: tags[2*i+1]})
+					st.Fields = append(st.Fields, Field{Name: fmt.Sprintf("val_%d", i), Type: ref(d)})
+				}
+				m.Fields = append(m.Fields, Field{Name: "local_struct", Type: &Type{Kind: TRef, Name: st.Name, Ref: st}, Tag: 61000})
+				defs = append(defs, st, m)
+				sc.local = append(sc.local, st, m)
+			}
 		}
 		// a recursive message (next Msg) and a forward reference
 		if len(defs) > 0 && r.Intn(2) == 0 {
